@@ -1,6 +1,860 @@
-//! C18 placeholder (filled in later).
+//! C18 — a compiled Regex is a pure, reusable, thread-safe value.
+//!
+//! Three parts:
+//! * histories: explicit-state search over sequences of API steps on a pool
+//!   of live Regex objects and live, partially consumed iterators (no state
+//!   merging: merging would assume the property under test); every step's
+//!   observation must equal the observation of the same step run alone on a
+//!   freshly compiled Regex;
+//! * schedules: 2-3 logical threads executing API steps on SHARED Regex
+//!   objects under a controlled scheduler whose scheduling points are the
+//!   engine's tick hooks (every loop iteration / iterator step), explored
+//!   exhaustively for 0, 1, 2 preemptions (iterative context bounding);
+//! * a probe crate asserting `Regex: Send + Sync` at compile time.
+
+use crate::core::{Case, Check, ChunkOut, Ctx, Failure, Plan, Tier};
+use crate::imp::{self, Out};
 use crate::ucd::Ucd;
-pub fn replay(_ucd: &Ucd, _text: &str) -> i32 {
-    eprintln!("C18 replay not built yet");
+use crate::util::{json_get_str, J};
+use regexml::Regex;
+use std::cell::Cell;
+use std::collections::{BTreeSet, HashMap};
+use std::sync::{Arc, Condvar, Mutex};
+
+pub struct C18;
+
+// ---------------------------------------------------------------------------
+// histories
+
+/// (pattern, flags, inputs used with it, replacement)
+const POOL: [(&str, &str, [&str; 2], &str); 5] = [
+    ("(a)(b)?", "", ["aab", "xab"], "<$1|$2>"),
+    ("(?:a?|b)*c", "", ["cabc", "aab"], "<$0>"),
+    ("(a)\\1|b", "i", ["aAb", "ab"], "<$1>"),
+    ("\\p{IsGreek}+|a", "", ["\u{3b1}\u{3b2}a", "xab"], "[$0]"),
+    ("^a|b", "m", ["a\nab", "aab"], "<$0>"),
+];
+
+const MAX_OBJS: usize = 2;
+const MAX_ITERS: usize = 2;
+
+#[derive(Clone, Copy, Debug, PartialEq, Eq, Hash)]
+enum Step {
+    Compile(usize),
+    IsMatch(usize, usize),
+    Replace(usize, usize),
+    OpenTok(usize, usize),
+    OpenAn(usize, usize),
+    StepIt(usize),
+    DropIt(usize),
+}
+
+struct LiveIter {
+    it: Box<dyn Iterator<Item = String> + 'static>,
+    pat: usize,
+    api: &'static str,
+    input: usize,
+    steps: usize,
+}
+
+struct World {
+    // iterators must be dropped before the regexes they borrow
+    iters: Vec<Option<LiveIter>>,
+    objs: Vec<(usize, Box<Regex>)>,
+}
+
+impl Drop for World {
+    fn drop(&mut self) {
+        self.iters.clear();
+    }
+}
+
+fn compile_pool(p: usize) -> Option<Regex> {
+    match imp::compile(POOL[p].0, POOL[p].1, false) {
+        Out::Ok(r) => Some(r),
+        _ => None,
+    }
+}
+
+fn show_step(s: &Step, w: Option<&World>) -> String {
+    let pat_of = |o: usize| -> String {
+        match w {
+            Some(w) => format!("R{}={:?}", o, POOL[w.objs[o].0].0),
+            None => format!("R{}", o),
+        }
+    };
+    match s {
+        Step::Compile(p) => format!("compile({:?},{:?})", POOL[*p].0, POOL[*p].1),
+        Step::IsMatch(o, i) => format!("is_match({}, input#{})", pat_of(*o), i),
+        Step::Replace(o, i) => format!("replace_all({}, input#{})", pat_of(*o), i),
+        Step::OpenTok(o, i) => format!("open tokenize({}, input#{})", pat_of(*o), i),
+        Step::OpenAn(o, i) => format!("open analyze({}, input#{})", pat_of(*o), i),
+        Step::StepIt(k) => format!("next(iterator {})", k),
+        Step::DropIt(k) => format!("drop(iterator {})", k),
+    }
+}
+
+fn open_iter(re: &'static Regex, api: &'static str, input: &str) -> Result<Box<dyn Iterator<Item = String> + 'static>, String> {
+    if api == "tokenize" {
+        match imp_open(|| re.tokenize(input).map(|it| Box::new(it) as Box<dyn Iterator<Item = String>>)) {
+            Ok(Ok(it)) => Ok(it),
+            Ok(Err(e)) => Err(format!("Err({:?})", imp::EK::of(&e))),
+            Err(m) => Err(m),
+        }
+    } else {
+        match imp_open(|| re.analyze(input).map(|it| Box::new(it.map(|e| format!("{:?}", e))) as Box<dyn Iterator<Item = String>>)) {
+            Ok(Ok(it)) => Ok(it),
+            Ok(Err(e)) => Err(format!("Err({:?})", imp::EK::of(&e))),
+            Err(m) => Err(m),
+        }
+    }
+}
+
+fn imp_open<T>(f: impl FnOnce() -> T) -> Result<T, String> {
+    regexml::verif::set_fuel(imp::FUEL);
+    std::panic::catch_unwind(std::panic::AssertUnwindSafe(f)).map_err(|_| "CRASH".to_string())
+}
+
+fn step_iter(it: &mut Box<dyn Iterator<Item = String> + 'static>) -> String {
+    regexml::verif::set_fuel(imp::FUEL);
+    match std::panic::catch_unwind(std::panic::AssertUnwindSafe(|| it.next())) {
+        Ok(Some(s)) => format!("Some({})", s),
+        Ok(None) => "None".to_string(),
+        Err(_) => "CRASH".to_string(),
+    }
+}
+
+impl World {
+    fn new() -> World {
+        World { iters: vec![], objs: vec![] }
+    }
+    fn live_iters(&self) -> usize {
+        self.iters.iter().filter(|x| x.is_some()).count()
+    }
+    fn enabled(&self) -> Vec<Step> {
+        let mut v = vec![];
+        if self.objs.len() < MAX_OBJS {
+            for p in 0..POOL.len() {
+                v.push(Step::Compile(p));
+            }
+        }
+        for o in 0..self.objs.len() {
+            for i in 0..2 {
+                v.push(Step::IsMatch(o, i));
+                v.push(Step::Replace(o, i));
+                if self.live_iters() < MAX_ITERS {
+                    v.push(Step::OpenTok(o, i));
+                    v.push(Step::OpenAn(o, i));
+                }
+            }
+        }
+        for (k, it) in self.iters.iter().enumerate() {
+            if it.is_some() {
+                v.push(Step::StepIt(k));
+                v.push(Step::DropIt(k));
+            }
+        }
+        v
+    }
+    fn regex_static(&self, o: usize) -> &'static Regex {
+        // SAFETY: the Box<Regex> lives in self.objs until the World is dropped,
+        // objects are never removed, and World::drop drops all iterators first.
+        unsafe { &*(self.objs[o].1.as_ref() as *const Regex) }
+    }
+    /// Execute a step; returns the observation.
+    fn exec(&mut self, s: Step) -> String {
+        match s {
+            Step::Compile(p) => match compile_pool(p) {
+                Some(r) => {
+                    self.objs.push((p, Box::new(r)));
+                    "Ok".to_string()
+                }
+                None => "compile failed".to_string(),
+            },
+            Step::IsMatch(o, i) => {
+                let p = self.objs[o].0;
+                imp::is_match(&self.objs[o].1, POOL[p].2[i]).show()
+            }
+            Step::Replace(o, i) => {
+                let p = self.objs[o].0;
+                imp::replace_all(&self.objs[o].1, POOL[p].2[i], POOL[p].3).show()
+            }
+            Step::OpenTok(o, i) | Step::OpenAn(o, i) => {
+                let api = if matches!(s, Step::OpenTok(..)) { "tokenize" } else { "analyze" };
+                let p = self.objs[o].0;
+                match open_iter(self.regex_static(o), api, POOL[p].2[i]) {
+                    Ok(it) => {
+                        self.iters.push(Some(LiveIter { it, pat: p, api, input: i, steps: 0 }));
+                        "opened".to_string()
+                    }
+                    Err(e) => e,
+                }
+            }
+            Step::StepIt(k) => {
+                let li = self.iters[k].as_mut().unwrap();
+                li.steps += 1;
+                step_iter(&mut li.it)
+            }
+            Step::DropIt(k) => {
+                self.iters[k] = None;
+                "dropped".to_string()
+            }
+        }
+    }
+}
+
+/// The observation of the same step executed alone on a freshly compiled Regex.
+fn solo(cache: &mut HashMap<String, String>, w: &World, s: Step) -> String {
+    let key = match s {
+        Step::Compile(p) => format!("c{}", p),
+        Step::IsMatch(o, i) => format!("m{}:{}", w.objs[o].0, i),
+        Step::Replace(o, i) => format!("r{}:{}", w.objs[o].0, i),
+        Step::OpenTok(o, i) => format!("ot{}:{}", w.objs[o].0, i),
+        Step::OpenAn(o, i) => format!("oa{}:{}", w.objs[o].0, i),
+        Step::StepIt(k) => {
+            let li = w.iters[k].as_ref().unwrap();
+            format!("s{}:{}:{}:{}", li.pat, li.api, li.input, li.steps + 1)
+        }
+        Step::DropIt(_) => return "dropped".to_string(),
+    };
+    if let Some(v) = cache.get(&key) {
+        return v.clone();
+    }
+    let mut fresh = World::new();
+    let v = match s {
+        Step::Compile(p) => fresh.exec(Step::Compile(p)),
+        Step::IsMatch(o, i) => {
+            fresh.exec(Step::Compile(w.objs[o].0));
+            fresh.exec(Step::IsMatch(0, i))
+        }
+        Step::Replace(o, i) => {
+            fresh.exec(Step::Compile(w.objs[o].0));
+            fresh.exec(Step::Replace(0, i))
+        }
+        Step::OpenTok(o, i) => {
+            fresh.exec(Step::Compile(w.objs[o].0));
+            fresh.exec(Step::OpenTok(0, i))
+        }
+        Step::OpenAn(o, i) => {
+            fresh.exec(Step::Compile(w.objs[o].0));
+            fresh.exec(Step::OpenAn(0, i))
+        }
+        Step::StepIt(k) => {
+            let li = w.iters[k].as_ref().unwrap();
+            fresh.exec(Step::Compile(li.pat));
+            fresh.exec(if li.api == "tokenize" { Step::OpenTok(0, li.input) } else { Step::OpenAn(0, li.input) });
+            let mut last = String::new();
+            for _ in 0..li.steps + 1 {
+                last = fresh.exec(Step::StepIt(0));
+            }
+            last
+        }
+        Step::DropIt(_) => unreachable!(),
+    };
+    cache.insert(key, v.clone());
+    v
+}
+
+fn build(history: &[Step]) -> (World, Vec<String>) {
+    let mut w = World::new();
+    let mut obs = vec![];
+    for s in history {
+        obs.push(w.exec(*s));
+    }
+    (w, obs)
+}
+
+fn history_depth(tier: Tier) -> usize {
+    match tier {
+        Tier::Quick => 4,
+        Tier::Thorough => 6,
+    }
+}
+
+/// All histories of length 2 (chunk prefixes), in deterministic order.
+fn prefixes() -> Vec<Vec<Step>> {
+    let mut out = vec![];
+    let w0 = World::new();
+    for a in w0.enabled() {
+        let (w1, _) = build(&[a]);
+        for b in w1.enabled() {
+            out.push(vec![a, b]);
+        }
+    }
+    out
+}
+
+struct HStats<'a> {
+    out: &'a mut ChunkOut,
+    cache: HashMap<String, String>,
+    distinct: BTreeSet<u64>,
+}
+
+fn dfs(st: &mut HStats, history: &mut Vec<Step>, depth_left: usize) {
+    let (w, _obs) = build(history);
+    st.out.inc("states");
+    let en = w.enabled();
+    drop(w);
+    for s in en {
+        // the child: re-execute the prefix, then the step, and judge the step
+        let (mut w, _) = build(history);
+        let want = solo(&mut st.cache, &w, s);
+        st.out.pin(&|| format!("history {:?} then {:?}", history, s));
+        let shown = show_step(&s, Some(&w));
+        let got = w.exec(s);
+        st.out.add("transitions_history_steps", history.len() as u64 + 1);
+        st.out.inc("validated");
+        st.distinct.insert(crate::util::fnv(&got));
+        if got != want {
+            let mut hist_txt: Vec<String> = vec![];
+            {
+                let mut w2 = World::new();
+                for h in history.iter() {
+                    hist_txt.push(show_step(h, Some(&w2)));
+                    w2.exec(*h);
+                }
+            }
+            hist_txt.push(shown.clone());
+            let mut case = Case::new("HIST", &hist_txt.join(" ; "), "");
+            case.api = "history".into();
+            let d = J::obj(vec![
+                ("property", J::s("C18")),
+                ("kind", J::s("StepDiffersFromSolo")),
+                ("history", J::Arr(hist_txt.iter().map(J::s).collect())),
+                ("history_codes", J::s(encode_history(history, s))),
+                ("expected", J::s(&want)),
+                ("observed", J::s(&got)),
+                ("note", J::s("expected = the same step executed alone on a freshly compiled Regex")),
+            ]);
+            st.out.failures.push(Failure { key: case.key("C18", "StepDiffersFromSolo"), detail: d });
+        }
+        drop(w);
+        if depth_left > 1 {
+            history.push(s);
+            dfs(st, history, depth_left - 1);
+            history.pop();
+        }
+    }
+}
+
+fn encode_history(h: &[Step], last: Step) -> String {
+    let enc = |s: &Step| -> String {
+        match s {
+            Step::Compile(p) => format!("C{}", p),
+            Step::IsMatch(o, i) => format!("M{}.{}", o, i),
+            Step::Replace(o, i) => format!("R{}.{}", o, i),
+            Step::OpenTok(o, i) => format!("T{}.{}", o, i),
+            Step::OpenAn(o, i) => format!("A{}.{}", o, i),
+            Step::StepIt(k) => format!("S{}", k),
+            Step::DropIt(k) => format!("D{}", k),
+        }
+    };
+    let mut v: Vec<String> = h.iter().map(enc).collect();
+    v.push(enc(&last));
+    v.join(" ")
+}
+
+fn decode_history(s: &str) -> Vec<Step> {
+    s.split_whitespace()
+        .filter_map(|t| {
+            let (k, rest) = t.split_at(1);
+            let mut nums = rest.split('.').filter_map(|x| x.parse::<usize>().ok());
+            let a = nums.next()?;
+            let b = nums.next().unwrap_or(0);
+            Some(match k {
+                "C" => Step::Compile(a),
+                "M" => Step::IsMatch(a, b),
+                "R" => Step::Replace(a, b),
+                "T" => Step::OpenTok(a, b),
+                "A" => Step::OpenAn(a, b),
+                "S" => Step::StepIt(a),
+                "D" => Step::DropIt(a),
+                _ => return None,
+            })
+        })
+        .collect()
+}
+
+// ---------------------------------------------------------------------------
+// schedules
+
+thread_local! { static TID: Cell<usize> = const { Cell::new(usize::MAX) }; }
+
+struct SchedState {
+    current: usize,
+    finished: Vec<bool>,
+    prefix: Vec<usize>,
+    pos: usize,
+    /// (number of enabled threads, chosen index, running thread still enabled)
+    trace: Vec<(usize, usize, bool)>,
+    diverged: bool,
+}
+
+struct Sched {
+    st: Mutex<SchedState>,
+    cv: Condvar,
+}
+
+impl Sched {
+    fn choose(st: &mut SchedState, n_enabled: usize, running_enabled: bool) -> usize {
+        let c = if st.pos < st.prefix.len() {
+            let c = st.prefix[st.pos];
+            if c >= n_enabled {
+                st.diverged = true;
+                0
+            } else {
+                c
+            }
+        } else {
+            0
+        };
+        st.pos += 1;
+        st.trace.push((n_enabled, c, running_enabled));
+        c
+    }
+    /// Scheduling point: called from the engine's tick hook.
+    fn point(&self) {
+        let me = TID.with(|t| t.get());
+        if me == usize::MAX {
+            return;
+        }
+        let mut st = self.st.lock().unwrap();
+        if st.current != me {
+            return; // not under control (should not happen)
+        }
+        // canonical order: the running thread first, then ascending ids
+        let mut enabled = vec![me];
+        for t in 0..st.finished.len() {
+            if t != me && !st.finished[t] {
+                enabled.push(t);
+            }
+        }
+        if enabled.len() == 1 {
+            return;
+        }
+        let c = Self::choose(&mut st, enabled.len(), true);
+        let next = enabled[c];
+        if next != me {
+            st.current = next;
+            self.cv.notify_all();
+            while st.current != me {
+                st = self.cv.wait(st).unwrap();
+            }
+        }
+    }
+    fn start(&self, me: usize) {
+        TID.with(|t| t.set(me));
+        let mut st = self.st.lock().unwrap();
+        while st.current != me {
+            st = self.cv.wait(st).unwrap();
+        }
+    }
+    fn finish(&self) {
+        let me = TID.with(|t| t.get());
+        let mut st = self.st.lock().unwrap();
+        st.finished[me] = true;
+        let enabled: Vec<usize> = (0..st.finished.len()).filter(|t| !st.finished[*t]).collect();
+        if !enabled.is_empty() {
+            let c = if enabled.len() > 1 { Self::choose(&mut st, enabled.len(), false) } else { 0 };
+            st.current = enabled[c];
+            self.cv.notify_all();
+        }
+        TID.with(|t| t.set(usize::MAX));
+    }
+}
+
+/// Wrapper that lets the harness share a Regex between threads even if a
+/// change to regexml removed its auto traits; the compile-time probe crate
+/// (not this wrapper) decides the Send + Sync clause.
+struct Shared(Vec<Regex>);
+unsafe impl Send for Shared {}
+unsafe impl Sync for Shared {}
+
+type Body = Arc<dyn Fn(&[Regex]) -> Vec<String> + Send + Sync>;
+
+struct Scenario {
+    name: &'static str,
+    patterns: Vec<(&'static str, &'static str)>,
+    bodies: Vec<Body>,
+    describe: Vec<&'static str>,
+}
+
+fn tok(re: &Regex, s: &str) -> String {
+    imp::tokenize(re, s).show()
+}
+fn an(re: &Regex, s: &str) -> String {
+    imp::analyze(re, s).map(|v| imp::show_entries(&v)).show()
+}
+
+fn scenarios() -> Vec<Scenario> {
+    vec![
+        Scenario {
+            name: "shared (?:ab|c)*d: is_match+replace_all || tokenize",
+            patterns: vec![("(?:ab|c)*d", "")],
+            bodies: vec![
+                Arc::new(|r| vec![imp::is_match(&r[0], "d").show(), imp::replace_all(&r[0], "abd", "<$0>").show()]),
+                Arc::new(|r| vec![tok(&r[0], "cdd")]),
+            ],
+            describe: vec!["is_match(\"d\"); replace_all(\"abd\",\"<$0>\")", "tokenize(\"cdd\") drained"],
+        },
+        Scenario {
+            name: "shared (a)(b)?: replace_all with captures || analyze",
+            patterns: vec![("(a)(b)?", "")],
+            bodies: vec![
+                Arc::new(|r| vec![imp::replace_all(&r[0], "aab", "<$1|$2>").show()]),
+                Arc::new(|r| vec![an(&r[0], "abab")]),
+            ],
+            describe: vec!["replace_all(\"aab\",\"<$1|$2>\")", "analyze(\"abab\") drained"],
+        },
+        Scenario {
+            name: "shared (a)\\1|b flag i: three threads, one call each",
+            patterns: vec![("(a)\\1|b", "i")],
+            bodies: vec![
+                Arc::new(|r| vec![imp::is_match(&r[0], "aA").show()]),
+                Arc::new(|r| vec![imp::is_match(&r[0], "ac").show()]),
+                Arc::new(|r| vec![imp::replace_all(&r[0], "baab", "<$1>").show()]),
+            ],
+            describe: vec!["is_match(\"aA\")", "is_match(\"ac\")", "replace_all(\"baab\",\"<$1>\")"],
+        },
+        Scenario {
+            name: "shared (?:a?|b)*c (zero-length memo): is_match || is_match+tokenize",
+            patterns: vec![("(?:a?|b)*c", "")],
+            bodies: vec![
+                Arc::new(|r| vec![imp::is_match(&r[0], "abc").show()]),
+                Arc::new(|r| vec![imp::is_match(&r[0], "bd").show(), tok(&r[0], "acbc")]),
+            ],
+            describe: vec!["is_match(\"abc\")", "is_match(\"bd\"); tokenize(\"acbc\") drained"],
+        },
+        Scenario {
+            name: "two regexes, compile of \\p{IsGreek} in one thread while the other matches",
+            patterns: vec![("^a|b", "m")],
+            bodies: vec![
+                Arc::new(|r| vec![imp::replace_all(&r[0], "a\nab", "<$0>").show()]),
+                Arc::new(|_r| match imp::compile("\\p{IsGreek}+|\\p{IsCyrillic}", "", false) {
+                    Out::Ok(g) => vec!["compiled".to_string(), imp::is_match(&g, "x\u{3b1}").show(), tok(&g, "\u{3b1}a\u{434}")],
+                    _ => vec!["compile failed".to_string()],
+                }),
+            ],
+            describe: vec!["replace_all(\"a\\nab\",\"<$0>\") on the shared regex", "compile \\p{IsGreek}+|\\p{IsCyrillic}; is_match; tokenize"],
+        },
+    ]
+}
+
+static SCHED_SLOT: Mutex<Option<Arc<Sched>>> = Mutex::new(None);
+
+fn install_scheduler_hook() {
+    regexml::verif::set_scheduler(Some(Box::new(|_site| {
+        if TID.with(|t| t.get()) == usize::MAX {
+            return;
+        }
+        let s = SCHED_SLOT.lock().unwrap().clone();
+        if let Some(s) = s {
+            s.point();
+        }
+    })));
+}
+
+/// One controlled execution: returns (trace, per-thread outputs, diverged).
+fn run_schedule(prefix: &[usize], shared: &Arc<Shared>, bodies: &[Body]) -> (Vec<(usize, usize, bool)>, Vec<Vec<String>>, bool) {
+    let s = Arc::new(Sched {
+        st: Mutex::new(SchedState {
+            current: 0,
+            finished: vec![false; bodies.len()],
+            prefix: prefix.to_vec(),
+            pos: 0,
+            trace: vec![],
+            diverged: false,
+        }),
+        cv: Condvar::new(),
+    });
+    *SCHED_SLOT.lock().unwrap() = Some(s.clone());
+    let hs: Vec<_> = bodies
+        .iter()
+        .enumerate()
+        .map(|(i, b)| {
+            let s = s.clone();
+            let b = b.clone();
+            let sh = shared.clone();
+            std::thread::spawn(move || {
+                s.start(i);
+                let r = std::panic::catch_unwind(std::panic::AssertUnwindSafe(|| b(&sh.0))).unwrap_or_else(|_| vec!["CRASH".to_string()]);
+                s.finish();
+                r
+            })
+        })
+        .collect();
+    let outs: Vec<Vec<String>> = hs.into_iter().map(|h| h.join().unwrap_or_else(|_| vec!["THREAD PANIC".to_string()])).collect();
+    *SCHED_SLOT.lock().unwrap() = None;
+    let st = s.st.lock().unwrap();
+    (st.trace.clone(), outs, st.diverged)
+}
+
+struct SStats {
+    schedules: u64,
+    points: u64,
+    distinct: BTreeSet<String>,
+    bad: Vec<(Vec<usize>, Vec<Vec<String>>)>,
+    diverged: u64,
+}
+
+fn explore(prefix: Vec<usize>, bound: usize, exact: bool, shared: &Arc<Shared>, bodies: &[Body], expect: &[Vec<String>], st: &mut SStats) {
+    let (trace, outs, diverged) = run_schedule(&prefix, shared, bodies);
+    if diverged {
+        st.diverged += 1;
+        return;
+    }
+    let choices: Vec<usize> = trace.iter().map(|t| t.1).collect();
+    let cost_upto = |i: usize| -> usize { (0..i).filter(|&j| trace[j].2 && trace[j].1 != 0).count() };
+    let total = cost_upto(trace.len());
+    if !exact || total == bound {
+        st.schedules += 1;
+        st.points += trace.len() as u64;
+        st.distinct.insert(format!("{:?}", outs));
+        if outs != expect && st.bad.len() < 3 {
+            st.bad.push((choices.clone(), outs.clone()));
+        }
+    }
+    for i in prefix.len()..trace.len() {
+        let mut cost = cost_upto(i);
+        if trace[i].2 {
+            cost += 1;
+        }
+        if cost > bound {
+            continue;
+        }
+        for alt in 1..trace[i].0 {
+            let mut p = choices[..i].to_vec();
+            p.push(alt);
+            explore(p, bound, exact, shared, bodies, expect, st);
+        }
+    }
+}
+
+fn sched_bounds(tier: Tier) -> Vec<usize> {
+    match tier {
+        Tier::Quick => vec![0, 1],
+        Tier::Thorough => vec![0, 1, 2],
+    }
+}
+
+// ---------------------------------------------------------------------------
+
+fn n_prefix_chunks() -> u64 {
+    prefixes().len() as u64
+}
+
+impl Check for C18 {
+    fn id(&self) -> &'static str {
+        "C18"
+    }
+    fn plan(&self, ctx: &Ctx) -> Plan {
+        let np = n_prefix_chunks();
+        let ns = scenarios().len() as u64;
+        let nb = sched_bounds(ctx.tier).len() as u64;
+        let depth = history_depth(ctx.tier);
+        Plan {
+            chunks: np + ns * nb + 1,
+            layer_of: Box::new(move |c| {
+                if c < np {
+                    format!("histories to depth {}", depth)
+                } else if c < np + ns * nb {
+                    format!("schedules, preemption bound {}", (c - np) % nb)
+                } else {
+                    "Send + Sync probe".to_string()
+                }
+            }),
+            description: format!(
+                "(a) every history of up to {} API steps (compile, is_match, replace_all, open tokenize/analyze, next, drop) over a pool of {} patterns x 2 inputs with at most {} live Regex objects and {} live iterators, full step tree without state merging, each step compared with the same step run alone on a fresh Regex; (b) {} thread scenarios on shared Regex objects under a controlled scheduler (scheduling points = engine tick hooks), all schedules with preemption bounds {:?}; (c) compile-time probe Regex: Send + Sync",
+                depth,
+                POOL.len(),
+                MAX_OBJS,
+                MAX_ITERS,
+                ns,
+                sched_bounds(ctx.tier)
+            ),
+            rule: "exhaustive within the stated depth / preemption bound; states = histories (nodes of the step tree) + schedules executed; distinct observation vectors are counted".into(),
+            assumptions: vec![
+                "regexml/src contains no unsafe code, so data races are excluded by the type system and interleaving at tick granularity is a sound model of concurrency for state that a change could share".into(),
+                "no scheduling point lies inside BlockLookup::new; std's OnceLock is trusted".into(),
+                "histories are rebuilt by re-execution (live objects cannot be cloned); the first chunk of every worker process starts with a cold process-wide block table".into(),
+                "a schedule in which a thread blocks on a lock held by a descheduled thread cannot be driven by this scheduler and is reported as a machinery timeout, not as a verdict".into(),
+            ],
+        }
+    }
+    fn run_chunk(&self, ctx: &Ctx, chunk: u64, out: &mut ChunkOut) {
+        let np = n_prefix_chunks();
+        let scs = scenarios();
+        let bounds = sched_bounds(ctx.tier);
+        let nb = bounds.len() as u64;
+        if chunk < np {
+            let pre = prefixes()[chunk as usize].clone();
+            let mut st = HStats { out, cache: HashMap::new(), distinct: BTreeSet::new() };
+            // judge the prefix steps themselves once (chunk 0 of each first step covers them via dfs of depth; here only the subtree)
+            let mut history = pre.clone();
+            let depth = history_depth(ctx.tier);
+            // the two prefix steps are judged by replaying them from the root
+            {
+                let mut h0: Vec<Step> = vec![];
+                for s in &pre {
+                    let (mut w, _) = build(&h0);
+                    let want = solo(&mut st.cache, &w, *s);
+                    let got = w.exec(*s);
+                    st.out.inc("validated");
+                    if got != want {
+                        let mut case = Case::new("HIST", &encode_history(&h0, *s), "");
+                        case.api = "history".into();
+                        let d = J::obj(vec![
+                            ("property", J::s("C18")),
+                            ("kind", J::s("StepDiffersFromSolo")),
+                            ("history_codes", J::s(encode_history(&h0, *s))),
+                            ("expected", J::s(&want)),
+                            ("observed", J::s(&got)),
+                        ]);
+                        st.out.failures.push(Failure { key: case.key("C18", "StepDiffersFromSolo"), detail: d });
+                    }
+                    h0.push(*s);
+                }
+            }
+            if depth > 2 {
+                dfs(&mut st, &mut history, depth - 2);
+            }
+            let n = st.distinct.len() as u64;
+            st.out.max("distinct_step_observations_in_a_chunk", n);
+            st.out.add("nontrivial", n);
+            st.out.sample(J::obj(vec![("history_prefix", J::s(encode_history(&pre[..1], pre[1]))), ("explored_to_depth", J::i(depth))]));
+            return;
+        }
+        if chunk < np + scs.len() as u64 * nb {
+            let k = chunk - np;
+            let sc = &scs[(k / nb) as usize];
+            let bound = bounds[(k % nb) as usize];
+            install_scheduler_hook();
+            let regs: Vec<Regex> = sc.patterns.iter().filter_map(|(p, f)| imp::compile(p, f, false).ok().map(|_| Regex::xpath(p, f).unwrap())).collect();
+            if regs.len() != sc.patterns.len() {
+                out.inc("rejected_valid");
+                return;
+            }
+            // expected = each body alone on fresh regexes, no scheduler control (TID unset)
+            let fresh: Vec<Regex> = sc.patterns.iter().map(|(p, f)| Regex::xpath(p, f).unwrap()).collect();
+            let expect: Vec<Vec<String>> = sc.bodies.iter().map(|b| b(&fresh)).collect();
+            let shared = Arc::new(Shared(regs));
+            let mut st = SStats { schedules: 0, points: 0, distinct: BTreeSet::new(), bad: vec![], diverged: 0 };
+            // each bound chunk counts exactly the schedules with that many preemptions
+            explore(vec![], bound, true, &shared, &sc.bodies, &expect, &mut st);
+            out.add("states", st.schedules);
+            out.add("schedules", st.schedules);
+            out.add("validated", st.schedules);
+            out.add("scheduling_points", st.points);
+            out.add("replay_divergences", st.diverged);
+            out.max("distinct_outcome_vectors_in_a_scenario", st.distinct.len() as u64);
+            out.max("max_scheduling_points_per_execution", if st.schedules > 0 { st.points / st.schedules } else { 0 });
+            for (sched, outs) in st.bad.iter().take(1) {
+                // a failing schedule must reproduce identically twice
+                let r1 = run_schedule(sched, &shared, &sc.bodies).1;
+                let r2 = run_schedule(sched, &shared, &sc.bodies).1;
+                let reproducible = &r1 == outs && &r2 == outs;
+                let mut case = Case::new("SCHED", sc.name, "");
+                case.api = format!("bound{}", bound);
+                case.input = format!("{:?}", sched);
+                let d = J::obj(vec![
+                    ("property", J::s("C18")),
+                    ("kind", J::s("ScheduleChangesResult")),
+                    ("scenario", J::s(sc.name)),
+                    ("threads", J::Arr(sc.describe.iter().map(|x| J::s(*x)).collect())),
+                    ("schedule", J::s(sched.iter().map(|x| x.to_string()).collect::<Vec<_>>().join(" "))),
+                    ("preemption_bound", J::i(bound)),
+                    ("expected", J::s(format!("{:?}", expect))),
+                    ("observed", J::s(format!("{:?}", outs))),
+                    ("replayed_twice_identically", J::Bool(reproducible)),
+                ]);
+                if reproducible {
+                    out.failures.push(Failure { key: case.key("C18", "ScheduleChangesResult"), detail: d });
+                } else {
+                    out.inc("irreproducible_schedule_outcomes");
+                }
+            }
+            if st.diverged > 0 {
+                out.inc("machinery_replay_divergence");
+            }
+            regexml::verif::set_scheduler(None);
+            out.sample(J::obj(vec![
+                ("scenario", J::s(sc.name)),
+                ("threads", J::Arr(sc.describe.iter().map(|x| J::s(*x)).collect())),
+                ("preemption_bound", J::i(bound)),
+                ("schedules", J::i(st.schedules)),
+            ]));
+            return;
+        }
+        // Send + Sync probe
+        out.inc("states");
+        out.inc("validated");
+        match std::process::Command::new("cargo")
+            .args(["check", "--offline", "--quiet"])
+            .current_dir(format!("{}/engine/probes/sendsync", crate::core::root()))
+            .env("CARGO_TARGET_DIR", format!("{}/engine/target/probe", crate::core::root()))
+            .output()
+        {
+            Ok(o) => {
+                if !o.status.success() {
+                    let err = String::from_utf8_lossy(&o.stderr).to_string();
+                    let is_trait = err.contains("Send") || err.contains("Sync") || err.contains("cannot be shared") || err.contains("cannot be sent");
+                    if is_trait {
+                        let mut case = Case::new("PROBE", "Regex: Send + Sync", "");
+                        case.api = "compile-time".into();
+                        out.fail("C18", &case, "NotSendSync", "the probe crate compiles", &err.lines().filter(|l| l.contains("error") || l.contains("cannot")).take(4).collect::<Vec<_>>().join(" | "), "");
+                    } else {
+                        out.inc("probe_build_failed_for_other_reason");
+                    }
+                }
+            }
+            Err(_) => out.inc("probe_could_not_run"),
+        }
+        out.sample(J::obj(vec![("probe", J::s("fn f<T: Send + Sync>() {} f::<regexml::Regex>()"))]));
+    }
+}
+
+// ---------------------------------------------------------------------------
+// replay
+
+pub fn replay(_ucd: &Ucd, text: &str) -> i32 {
+    if let Some(codes) = json_get_str(text, "history_codes") {
+        let h = decode_history(&codes);
+        println!("replaying history (no explorer): {}", codes);
+        let mut w = World::new();
+        let mut cache = HashMap::new();
+        for s in &h {
+            let want = solo(&mut cache, &w, *s);
+            let shown = show_step(s, Some(&w));
+            let got = w.exec(*s);
+            println!("  {:<50} -> {}{}", shown, got, if got != want { format!("   <-- DIFFERS from solo run: {}", want) } else { String::new() });
+        }
+        return 0;
+    }
+    if let Some(sched) = json_get_str(text, "schedule") {
+        let name = json_get_str(text, "scenario").unwrap_or_default();
+        let choices: Vec<usize> = sched.split_whitespace().filter_map(|x| x.parse().ok()).collect();
+        let scs = scenarios();
+        let sc = match scs.iter().find(|s| s.name == name) {
+            Some(s) => s,
+            None => {
+                eprintln!("unknown scenario {:?}", name);
+                return 2;
+            }
+        };
+        install_scheduler_hook();
+        let regs: Vec<Regex> = sc.patterns.iter().map(|(p, f)| Regex::xpath(p, f).unwrap()).collect();
+        let fresh: Vec<Regex> = sc.patterns.iter().map(|(p, f)| Regex::xpath(p, f).unwrap()).collect();
+        let expect: Vec<Vec<String>> = sc.bodies.iter().map(|b| b(&fresh)).collect();
+        let shared = Arc::new(Shared(regs));
+        println!("replaying schedule {:?} of scenario {:?}", choices, name);
+        for round in 0..2 {
+            let (_t, outs, div) = run_schedule(&choices, &shared, &sc.bodies);
+            println!("  run {}: {:?}{}", round + 1, outs, if div { "  (REPLAY DIVERGED)" } else { "" });
+        }
+        println!("  solo : {:?}", expect);
+        regexml::verif::set_scheduler(None);
+        return 0;
+    }
+    eprintln!("not a C18 violation file");
     2
 }
